@@ -386,6 +386,10 @@ func soloOf(f *fixture, r *core.Result, i int) solo {
 		if was, changed := f.argsRestore(); changed {
 			argsWas = was
 		}
+		for _, what := range f.failed {
+			r.Add("solo|"+f.ops[i].name+"|assertion-of-the-op-failed", "op %s alone: %s", f.ops[i].name, what)
+		}
+		f.failed = nil
 		return s, pi
 	}
 	a, pa := run(false)
